@@ -5,6 +5,11 @@
 //! from a (version-adjusted) full baseline over the site table in `model.rs`, for every target
 //! version; every produced file (builder output and each re-serialisation round on two rebuild
 //! paths) is judged by the independent chunk walker in `walker.rs` and by content comparison.
+//!
+//! The thorough tier adds five spaces over an extended alphabet (values after `Site::core`):
+//! `ext` (<= 2 deviations with at least one extended value), `chunks` (full product of per-chunk
+//! sub-chunk presence/format, 256 combinations per tile), `top_names` and `top_chunks` (full
+//! products of the top-level sites) and `convert` (version conversion chains and load-modify-save).
 mod model;
 mod walker;
 
@@ -28,10 +33,15 @@ struct Main {
     cases: Vec<Case>,
 }
 
-fn deviations(base: &Spec, ndev: usize, skip_val: &dyn Fn(usize, u8) -> bool) -> Vec<(Vec<(usize, u8)>, Spec)> {
-    // all specs that differ from `base` at exactly `ndev` sites
-    fn rec(base: &Spec, start: usize, left: usize, cur: &mut Vec<(usize, u8)>, out: &mut Vec<(Vec<(usize, u8)>, Spec)>, skip_val: &dyn Fn(usize, u8) -> bool) {
+/// All specs that differ from `base` at exactly `ndev` sites.  `ext == false`: core values only (the
+/// alphabet of the quick tier and of the main space); `ext == true`: all values, and only deviation
+/// sets with at least one extended value are kept.
+fn deviations(base: &Spec, ndev: usize, ext: bool, skip_val: &dyn Fn(usize, u8) -> bool) -> Vec<(Vec<(usize, u8)>, Spec)> {
+    fn rec(base: &Spec, start: usize, left: usize, ext: bool, cur: &mut Vec<(usize, u8)>, out: &mut Vec<(Vec<(usize, u8)>, Spec)>, skip_val: &dyn Fn(usize, u8) -> bool) {
         if left == 0 {
+            if ext && !cur.iter().any(|(site, v)| *v as usize >= SITES[*site].core) {
+                return;
+            }
             let mut s = base.clone();
             for (site, v) in cur.iter() {
                 s.v[*site] = *v;
@@ -40,18 +50,19 @@ fn deviations(base: &Spec, ndev: usize, skip_val: &dyn Fn(usize, u8) -> bool) ->
             return;
         }
         for site in start..NSITES {
-            for v in 0..SITES[site].vals.len() as u8 {
+            let nvals = if ext { SITES[site].vals.len() } else { SITES[site].core };
+            for v in 0..nvals as u8 {
                 if v == base.v[site] || skip_val(site, v) {
                     continue;
                 }
                 cur.push((site, v));
-                rec(base, site + 1, left - 1, cur, out, skip_val);
+                rec(base, site + 1, left - 1, ext, cur, out, skip_val);
                 cur.pop();
             }
         }
     }
     let mut out = vec![];
-    rec(base, 0, ndev, &mut vec![], &mut out, skip_val);
+    rec(base, 0, ndev, ext, &mut vec![], &mut out, skip_val);
     out
 }
 
@@ -61,7 +72,7 @@ fn documented_refusal(s: &Spec) -> bool {
             return true;
         }
     }
-    s.val(S_TEX) == "none" || (s.val(S_DOODADS) != "none" && s.val(S_MODELS) == "none") || (s.val(S_WMOPL) != "none" && s.val(S_WMOS) == "none")
+    s.val(S_TEX) == "none" || s.val(S_MCNK) == "n257" || (s.val(S_DOODADS) != "none" && s.val(S_MODELS) == "none") || (s.val(S_WMOPL) != "none" && s.val(S_WMOS) == "none")
 }
 
 impl Main {
@@ -87,7 +98,7 @@ impl Main {
                     };
                     let heavy_from = if quick && bname == "full" { 2 } else { 3 };
                     let skip = |site: usize, v: u8| (quick || bname == "full_staggered") && ndev >= heavy_from && site == S_MCNK && SITES[site].vals[v as usize] == "all256";
-                    for (devs, spec) in deviations(&base, ndev, &skip) {
+                    for (devs, spec) in deviations(&base, ndev, false, &skip) {
                         let canon = spec.canonical();
                         // from 3 deviations on, inputs the builder is documented to refuse are not
                         // enumerated again (refusals are covered with <= 2 deviations)
@@ -220,17 +231,31 @@ fn growth_symptoms(old: &walker::Report, new: &walker::Report) -> Vec<(String, S
     out
 }
 
+/// How deep one builder input is explored.
+struct Opts {
+    rounds: usize,
+    /// rebuild paths: "from_root_adt", "from_parsed", "alternating" (odd rounds from_root_adt, even from_parsed)
+    paths: &'static [&'static str],
+}
+const OPTS_MAIN: Opts = Opts { rounds: ROUNDS, paths: &["from_root_adt", "from_parsed"] };
+const OPTS_CHUNKS: Opts = Opts { rounds: 2, paths: &["from_root_adt", "from_parsed"] };
+const OPTS_TOP: Opts = Opts { rounds: ROUNDS, paths: &["from_root_adt", "from_parsed", "alternating"] };
+
 fn run_spec(spec: &Spec, r: &mut CaseResult) {
-    let inp = make_input(spec);
+    run_input(&make_input(spec), r, &OPTS_MAIN);
+}
+
+/// Returns the parsed builder output and its content when the tile was built and parsed.
+fn run_input(inp: &Input, r: &mut CaseResult, opts: &Opts) -> Option<(RootAdt, Content)> {
     let mut cx = Ctx { r, seen: HashSet::new() };
 
     // ---- build + serialise
-    let built = match build(&inp) {
+    let built = match build(inp) {
         Ok(b) => b,
         Err(e) => {
             cx.r.err_return = true;
             cx.r.outcome = format!("build refused: {}", err_class(&e.to_string()).chars().take(40).collect::<String>());
-            return;
+            return None;
         }
     };
     let bytes0 = match built.to_bytes() {
@@ -238,7 +263,7 @@ fn run_spec(spec: &Spec, r: &mut CaseResult) {
         Err(e) => {
             cx.r.err_return = true;
             cx.r.outcome = format!("to_bytes refused: {}", err_class(&e.to_string()).chars().take(40).collect::<String>());
-            return;
+            return None;
         }
     };
     cx.r.nontrivial = true;
@@ -263,6 +288,17 @@ fn run_spec(spec: &Spec, r: &mut CaseResult) {
     if rep0.mcnk_count != want_mcnk {
         cx.viol("number of MCNK chunks in the file differs from the builder input".into(), format!("{} in file, {} expected", rep0.mcnk_count, want_mcnk));
     }
+    // data bytes per MCNK sub-chunk kind, read by the walker, against record size times the number
+    // of records given (clause 1 judged without wow-adt's own parser)
+    if let Some(m) = &inp.mcnk {
+        for (kind, want) in expected_sub_data(m) {
+            let got = rep0.sub_data.get(kind).copied().unwrap_or(0);
+            if got != want {
+                cx.viol(format!("raw {kind} data size over all MCNK chunks differs from record size times the number of records given"), format!("{got} bytes in file, {want} expected"));
+            }
+        }
+        cx.r.count("raw_sub_chunk_kinds_checked", 11);
+    }
 
     // ---- (1) parse(serialise(built)) == builder input
     let p0 = match parse(&bytes0) {
@@ -273,14 +309,14 @@ fn run_spec(spec: &Spec, r: &mut CaseResult) {
                 format!("{} bytes; error: {}", bytes0.len(), e),
             );
             cx.r.outcome = "built, parse failed".into();
-            return;
+            return None;
         }
     };
     let vsame = p0.version == inp.version;
     if !vsame {
         cx.r.count("detected_version_differs_from_target", 1);
     }
-    let c_in = input_content(&inp);
+    let c_in = input_content(inp);
     let c0 = root_content(&p0);
     {
         let mut c0f = c0.clone();
@@ -305,14 +341,14 @@ fn run_spec(spec: &Spec, r: &mut CaseResult) {
 
     // ---- (2) rounds of parse -> rebuild -> serialise on both rebuild paths
     let mut stable_all = true;
-    for path in ["from_root_adt", "from_parsed"] {
+    for &path in opts.paths {
         let mut prev_bytes = bytes0.clone();
         let mut prev_rep = walker::inspect(&bytes0);
         let mut prev_root = p0.clone();
         let mut prev_content = c0.clone();
-        for n in 1..=ROUNDS {
+        for n in 1..=opts.rounds {
             let stage = format!("{path} round {n}");
-            let rebuilt: Result<Vec<u8>, String> = if path == "from_root_adt" {
+            let rebuilt: Result<Vec<u8>, String> = if path == "from_root_adt" || (path == "alternating" && n % 2 == 1) {
                 BuiltAdt::from_root_adt(prev_root.clone(), None).to_bytes().map_err(|e| e.to_string())
             } else {
                 AdtBuilder::from_parsed(prev_root.clone()).build().and_then(|b| b.to_bytes()).map_err(|e| e.to_string())
@@ -387,6 +423,7 @@ fn run_spec(spec: &Spec, r: &mut CaseResult) {
         if stable_all { "stable" } else { "unstable" },
         if nviol == 0 { "held" } else { "violated" }
     );
+    Some((p0, c0))
 }
 
 impl Space for Main {
@@ -410,9 +447,400 @@ impl Space for Main {
     }
 }
 
+// ------------------------------------------------------------------ thorough-only spaces
+
+/// `ext`: <= 2 deviations from the three baselines with at least one value of the extended alphabet.
+struct Ext {
+    cases: Vec<Case>,
+}
+impl Ext {
+    fn new() -> Ext {
+        let mut cases = vec![];
+        let mut seen: HashSet<Spec> = HashSet::new();
+        for ndev in 1..=2 {
+            for bname in ["minimal", "full", "full_staggered"] {
+                for version in 0..VERSIONS.len() {
+                    let base = match bname {
+                        "minimal" => Spec::minimal(version),
+                        "full" => Spec::full(version),
+                        _ => {
+                            let mut b = Spec::full(version);
+                            b.v[S_STAGGER] = 1;
+                            b
+                        }
+                    };
+                    for (devs, spec) in deviations(&base, ndev, true, &|_, _| false) {
+                        let canon = spec.canonical();
+                        // canonicalisation may have reset the extended value (e.g. a per-chunk value with auto256)
+                        if !(0..NSITES).any(|i| canon.v[i] as usize >= SITES[i].core) {
+                            continue;
+                        }
+                        if seen.insert(canon.clone()) {
+                            cases.push(Case { base: bname, devs, spec: canon });
+                        }
+                    }
+                }
+            }
+        }
+        Ext { cases }
+    }
+}
+impl Space for Ext {
+    fn len(&self) -> u64 {
+        self.cases.len() as u64
+    }
+    fn describe(&self, i: u64) -> Value {
+        let c = &self.cases[i as usize];
+        let devs: Vec<Value> = c.devs.iter().map(|(s, v)| json!(format!("{}={}", SITES[*s].name, SITES[*s].vals[*v as usize]))).collect();
+        json!({"base": c.base, "deviations": devs, "spec": c.spec.json()})
+    }
+    fn run(&self, i: u64) -> CaseResult {
+        let c = &self.cases[i as usize];
+        let mut r = CaseResult::new();
+        r.key = c.spec.key();
+        run_spec(&c.spec, &mut r);
+        r
+    }
+    fn case_timeout(&self) -> u64 {
+        300
+    }
+}
+
+/// `chunks`: full product of the per-chunk alphabet `CHUNK_PRODUCT`, 256 consecutive combinations on
+/// the 256 terrain chunks of one tile, top-level sites at the full baseline of the version.
+struct Chunks {
+    blocks: u64,
+}
+impl Chunks {
+    fn new() -> Chunks {
+        Chunks { blocks: chunk_product_len().div_ceil(256) }
+    }
+    fn tile(&self, i: u64) -> (Spec, u64) {
+        let version = (i / self.blocks) as usize;
+        let block = i % self.blocks;
+        let mut s = Spec::full(version);
+        s.v[S_MCNK] = vidx(S_MCNK, "all256");
+        (s, block)
+    }
+}
+impl Space for Chunks {
+    fn len(&self) -> u64 {
+        self.blocks * VERSIONS.len() as u64
+    }
+    fn describe(&self, i: u64) -> Value {
+        let (s, block) = self.tile(i);
+        let mut spec = s.json();
+        for (site, _) in CHUNK_PRODUCT.iter() {
+            spec[SITES[*site].name] = json!("product");
+        }
+        json!({"base": "chunk_product", "block": block, "combinations": format!("{}..{}", block * 256, (block * 256 + 256).min(chunk_product_len())), "spec": spec})
+    }
+    fn run(&self, i: u64) -> CaseResult {
+        let (s, block) = self.tile(i);
+        let mut r = CaseResult::new();
+        r.key = format!("chunks:{}:{}", s.version, block);
+        let mut inp = make_input(&s);
+        let chunks = product_chunks(&s, block, inp.textures.len());
+        r.count("chunk_combinations", chunks.len() as u64);
+        inp.mcnk = Some(chunks);
+        run_input(&inp, &mut r, &OPTS_CHUNKS);
+        r
+    }
+    fn case_timeout(&self) -> u64 {
+        300
+    }
+}
+
+/// Full product over a list of (site, value names) with the other sites at the minimal baseline;
+/// combinations that the builder is documented to refuse are not enumerated.
+struct TopProduct {
+    cases: Vec<Spec>,
+    name: &'static str,
+}
+const TOP_NAMES: [(usize, &[&str]); 8] = [
+    (S_TEX, &["one", "three_shared_prefix", "long255_plus_two", "many300", "utf8_two"]),
+    (S_MODELS, &["none", "one", "three_shared_prefix", "many300"]),
+    (S_DOODADS, &["none", "one", "three", "many1821"]),
+    (S_WMOS, &["none", "one", "three_shared_prefix", "many300"]),
+    (S_WMOPL, &["none", "one", "three", "many1025"]),
+    (S_MFBO, &["off", "on"]),
+    (S_WATER, &["none", "c0"]),
+    (S_WATERFMT, &["two_layers"]),
+];
+const TOP_CHUNKS: [(usize, &[&str]); 9] = [
+    (S_MCNK, &["one", "auto256"]),
+    (S_TEX, &["one", "three_shared_prefix"]),
+    (S_MFBO, &["off", "on"]),
+    (S_MTXF, &["none", "per_texture", "one_fewer", "two_more"]),
+    (S_MAMP, &["off", "on"]),
+    (S_MTXP, &["off", "per_texture", "two_more"]),
+    (S_BLEND, &["off", "two_batches", "one_batch", "big"]),
+    (S_WATER, &["none", "c0", "c255", "c0_17_255", "present_empty", "all256", "c0_17attrs_255", "vec1_c0"]),
+    (S_WATERFMT, &["plain_attrs", "lvf0_bitmap", "lvf1_full", "lvf2_bitmap_attrs", "lvf3", "two_layers", "bitmap_no_vertices_attrs", "two_layers_last_bitmap_only", "three_layers", "lvf0_full_bitmap64"]),
+];
+impl TopProduct {
+    fn new(name: &'static str, axes: &[(usize, &[&str])]) -> TopProduct {
+        let radices: Vec<u64> = axes.iter().map(|(_, v)| v.len() as u64).collect();
+        let mut cases = vec![];
+        let mut seen: HashSet<Spec> = HashSet::new();
+        for version in 0..VERSIONS.len() {
+            for i in 0..gen::product(&radices) {
+                let mut s = Spec::minimal(version);
+                for ((site, vals), d) in axes.iter().zip(gen::mixed_radix(i, &radices)) {
+                    s.v[*site] = vidx(*site, vals[d as usize]);
+                }
+                let s = s.canonical();
+                if documented_refusal(&s) || (s.v[S_MTXF] != 0 && version < SITES[S_MTXF].full_from) {
+                    continue;
+                }
+                if seen.insert(s.clone()) {
+                    cases.push(s);
+                }
+            }
+        }
+        TopProduct { cases, name }
+    }
+}
+impl Space for TopProduct {
+    fn len(&self) -> u64 {
+        self.cases.len() as u64
+    }
+    fn describe(&self, i: u64) -> Value {
+        json!({"base": self.name, "spec": self.cases[i as usize].json()})
+    }
+    fn run(&self, i: u64) -> CaseResult {
+        let s = &self.cases[i as usize];
+        let mut r = CaseResult::new();
+        r.key = s.key();
+        run_input(&make_input(s), &mut r, &OPTS_TOP);
+        r
+    }
+    fn case_timeout(&self) -> u64 {
+        300
+    }
+}
+
+/// `convert`: chains that start from a parsed builder output: explicit version conversion
+/// `BuiltAdt::from_root_adt(root, Some(v))` to every version and back, and the documented
+/// load-modify-save flow `AdtBuilder::from_parsed(root).add_*(..).build()`.
+struct Convert {
+    cases: Vec<Case>,
+}
+impl Convert {
+    fn new() -> Convert {
+        let mut cases = vec![];
+        let mut seen: HashSet<Spec> = HashSet::new();
+        for ndev in 0..=1 {
+            for bname in ["minimal", "full", "full_staggered"] {
+                for version in 0..VERSIONS.len() {
+                    let base = match bname {
+                        "minimal" => Spec::minimal(version),
+                        "full" => Spec::full(version),
+                        _ => {
+                            let mut b = Spec::full(version);
+                            b.v[S_STAGGER] = 1;
+                            b
+                        }
+                    };
+                    let all = |base: &Spec| -> Vec<(Vec<(usize, u8)>, Spec)> {
+                        // every single deviation over the whole alphabet (core and extended)
+                        let mut out = vec![];
+                        if ndev == 0 {
+                            out.push((vec![], base.clone()));
+                            return out;
+                        }
+                        for site in 0..NSITES {
+                            for v in 0..SITES[site].vals.len() as u8 {
+                                if v != base.v[site] {
+                                    let mut s = base.clone();
+                                    s.v[site] = v;
+                                    out.push((vec![(site, v)], s));
+                                }
+                            }
+                        }
+                        out
+                    };
+                    for (devs, spec) in all(&base) {
+                        let canon = spec.canonical();
+                        if documented_refusal(&canon) || (canon.v[S_MTXF] != 0 && version < SITES[S_MTXF].full_from) {
+                            continue;
+                        }
+                        if seen.insert(canon.clone()) {
+                            cases.push(Case { base: bname, devs, spec: canon });
+                        }
+                    }
+                }
+            }
+        }
+        Convert { cases }
+    }
+}
+
+/// Lowest version index in which a content section exists (a conversion to an older version may drop it).
+fn section_min_version(class: &str) -> usize {
+    match class {
+        "flight_bounds" => 2,
+        "MH2O water entry" | "texture_flags" => 3,
+        "texture_amplifier" => 4,
+        "texture_params" | "blend_mesh_headers" | "blend_mesh_bounds" | "blend_mesh_vertices" | "blend_mesh_indices" => 5,
+        "MCNK vertex_colors" => 1,
+        "MCNK vertex_lighting" | "MCNK doodad_refs" | "MCNK wmo_refs" | "MCNK materials" => 4,
+        "MCNK doodad_disable" | "MCNK blend_batches" | "MCNK high_res_holes" => 5,
+        _ => 0,
+    }
+}
+
+/// Content restricted to what a conversion chain whose oldest version is `level` has to keep.
+fn keep_for_level(c: &Content, level: usize) -> Content {
+    c.iter()
+        .filter_map(|(k, v)| {
+            let cls = key_class(k);
+            if cls == "MCNK header" && level < 5 {
+                // the flag word announces version-specific sub-chunks: not compared below MoP
+                let mut v = v.clone();
+                v[..4].fill(0);
+                return Some((k.clone(), v));
+            }
+            (section_min_version(&cls) <= level).then(|| (k.clone(), v.clone()))
+        })
+        .collect()
+}
+
+/// Documented additions of a conversion ("adds empty version-specific chunks as needed"): all-zero
+/// flight bounds and one zero texture flag per texture that the source did not have are not judged.
+fn drop_documented_additions(before: &Content, after: &mut Content) {
+    if !before.contains_key("flight_bounds") && after.get("flight_bounds").map(|v| v.iter().all(|b| *b == 0)).unwrap_or(false) {
+        after.remove("flight_bounds");
+    }
+    if !before.contains_key("texture_flags") && after.get("texture_flags").map(|v| v.iter().all(|b| *b == 0)).unwrap_or(false) {
+        after.remove("texture_flags");
+    }
+}
+
+fn run_convert(spec: &Spec, r: &mut CaseResult) {
+    let inp = make_input(spec);
+    let Some((p0, c0)) = run_input(&inp, r, &Opts { rounds: 1, paths: &["alternating"] }) else { return };
+    let mut cx = Ctx { r, seen: HashSet::new() };
+    for v in cx.r.viols.iter() {
+        cx.seen.insert(v.symptom.clone());
+    }
+    let a = spec.version;
+    let dir = |from: usize, to: usize| if to > from { "to a later version" } else if to < from { "to an earlier version" } else { "to the same version" };
+    for b in 0..VERSIONS.len() {
+        let stage = format!("convert {} -> {}", VERSIONS[a].0, VERSIONS[b].0);
+        let Ok(bytes_b) = BuiltAdt::from_root_adt(p0.clone(), Some(VERSIONS[b].1)).to_bytes() else {
+            cx.r.count("conversions_refused", 1);
+            continue;
+        };
+        cx.r.count("conversions_run", 1);
+        cx.walk(&bytes_b, &stage);
+        let pb = match parse(&bytes_b) {
+            Ok(p) => p,
+            Err(e) => {
+                cx.viol(format!("parse_adt rejects a tile converted {}: {}", dir(a, b), err_class(&e)), format!("[{stage}] {} bytes; error: {}", bytes_b.len(), e));
+                continue;
+            }
+        };
+        let mut cb = keep_for_level(&root_content(&pb), b);
+        let want = keep_for_level(&c0, b);
+        drop_documented_additions(&want, &mut cb);
+        for (cls, d) in diff(&want, &cb, "tile before", "converted tile") {
+            cx.viol(format!("conversion {} {cls}", dir(a, b)), format!("[{stage}] {d}"));
+        }
+        // and back to the version the tile was built for
+        let stage = format!("convert {} -> {} -> {}", VERSIONS[a].0, VERSIONS[b].0, VERSIONS[a].0);
+        let Ok(bytes_ba) = BuiltAdt::from_root_adt(pb, Some(VERSIONS[a].1)).to_bytes() else {
+            cx.r.count("conversions_refused", 1);
+            continue;
+        };
+        cx.r.count("conversions_run", 1);
+        cx.walk(&bytes_ba, &stage);
+        match parse(&bytes_ba) {
+            Ok(pba) => {
+                let level = a.min(b);
+                let mut cba = keep_for_level(&root_content(&pba), level);
+                let want = keep_for_level(&c0, level);
+                drop_documented_additions(&want, &mut cba);
+                for (cls, d) in diff(&want, &cba, "tile before", "tile converted there and back") {
+                    cx.viol(format!("conversion there and back {cls}"), format!("[{stage}] {d}"));
+                }
+            }
+            Err(e) => cx.viol(format!("parse_adt rejects a tile converted there and back: {}", err_class(&e)), format!("[{stage}] {} bytes; error: {}", bytes_ba.len(), e)),
+        }
+    }
+
+    // ---- load-modify-save: builder seeded with the parsed tile, then more content added
+    let n0 = p0.mcnk_chunks.len();
+    let extra = (n0 < 256).then(|| {
+        let mut s = Spec::full(a);
+        s.v[S_STAGGER] = 0;
+        make_chunk(&s, n0, 256, p0.textures.len() + 1)
+    });
+    let mut want = c0.clone();
+    let app = |c: &mut Content, key: &str, name: &str| {
+        let e = c.entry(key.to_string()).or_default();
+        e.extend(name.as_bytes());
+        e.push(0);
+    };
+    app(&mut want, "textures", "tileset/appended.blp");
+    app(&mut want, "models", "world/doodad/appended.m2");
+    app(&mut want, "wmos", "world/wmo/appended.wmo");
+    let mut bld = AdtBuilder::from_parsed(p0).add_texture("tileset/appended.blp").add_model("world/doodad/appended.m2").add_wmo("world/wmo/appended.wmo");
+    if let Some(ch) = &extra {
+        bld = bld.add_mcnk_chunk(ch.clone());
+        want.insert("mcnk_count".into(), (n0 as u32 + 1).to_le_bytes().to_vec());
+        mcnk_content(&mut want, n0, ch);
+    }
+    let Ok(bytes_m) = bld.build().and_then(|b| b.to_bytes()) else {
+        cx.r.count("modify_refused", 1);
+        return;
+    };
+    cx.r.count("modify_run", 1);
+    cx.walk(&bytes_m, "load-modify-save");
+    match parse(&bytes_m) {
+        Ok(pm) => {
+            let mut cm = root_content(&pm);
+            drop_documented_additions(&want, &mut cm);
+            for (cls, d) in diff(&want, &cm, "parsed tile plus additions", "re-parsed tile") {
+                cx.viol(format!("load-modify-save (from_parsed, add_*, build) {cls}"), format!("[load-modify-save] {d}"));
+            }
+        }
+        Err(e) => cx.viol(format!("parse_adt rejects a tile made by load-modify-save: {}", err_class(&e)), format!("{} bytes; error: {}", bytes_m.len(), e)),
+    }
+    if !cx.r.viols.is_empty() && cx.r.outcome.ends_with("held") {
+        cx.r.outcome = cx.r.outcome.replace("held", "violated");
+    }
+}
+
+impl Space for Convert {
+    fn len(&self) -> u64 {
+        self.cases.len() as u64
+    }
+    fn describe(&self, i: u64) -> Value {
+        let c = &self.cases[i as usize];
+        let devs: Vec<Value> = c.devs.iter().map(|(s, v)| json!(format!("{}={}", SITES[*s].name, SITES[*s].vals[*v as usize]))).collect();
+        json!({"base": c.base, "chain": "convert", "deviations": devs, "spec": c.spec.json()})
+    }
+    fn run(&self, i: u64) -> CaseResult {
+        let c = &self.cases[i as usize];
+        let mut r = CaseResult::new();
+        r.key = c.spec.key();
+        run_convert(&c.spec, &mut r);
+        r
+    }
+    fn case_timeout(&self) -> u64 {
+        300
+    }
+}
+
 fn build_space(name: &str, _arg: &str, tier: Tier) -> Box<dyn Space> {
     match name {
         "main" => Box::new(Main::new(tier)),
+        "ext" => Box::new(Ext::new()),
+        "chunks" => Box::new(Chunks::new()),
+        "top_names" => Box::new(TopProduct::new("top_names_product", &TOP_NAMES)),
+        "top_chunks" => Box::new(TopProduct::new("top_chunks_product", &TOP_CHUNKS)),
+        "convert" => Box::new(Convert::new()),
         _ => panic!("space {name}"),
     }
 }
@@ -553,14 +981,21 @@ fn main() {
         "builder inputs = all specs with <= {dmin} deviations from the minimal baseline and <= {dfull} from the version-adjusted full baseline over {} sites ({} site values in total) x 6 target versions (VanillaEarly..MoP), canonicalised (sites without effect reset) and de-duplicated{}; per case: build -> to_bytes -> independent walker -> parse_adt -> content comparison with the input, then {ROUNDS} rounds of parse -> rebuild -> to_bytes on two rebuild paths (BuiltAdt::from_root_adt(root, None) and AdtBuilder::from_parsed(root).build()), every produced file walked. A case is non-trivial when the builder accepted it and a file was produced; distinct by (version, site vector).",
         NSITES,
         SITES.iter().map(|s| s.vals.len()).sum::<usize>(),
-        if tier == Tier::Quick { "; 256 populated MCNK within <= 2 deviations of the minimal and <= 1 of the full baseline" } else { "; thorough adds a third baseline (full with staggered sub-chunk presence: sub-chunk k present on chunk i iff (i+k) even) with the same deviation bound as full, 256 populated MCNK there only within <= 2 deviations; with 3 deviations, inputs that the builder documents as refused are not enumerated again" }
+        if tier == Tier::Quick { "; 256 populated MCNK within <= 2 deviations of the minimal and <= 1 of the full baseline".to_string() } else { format!("; thorough adds a third baseline (full with staggered sub-chunk presence: sub-chunk k present on chunk i iff (i+k) even) with the same deviation bound as full, 256 populated MCNK there only within <= 2 deviations; with 3 deviations, inputs that the builder documents as refused are not enumerated again. The sites of space main use their core values ({} values). Thorough-only spaces over the extended alphabet ({} values: name lists of 300 names / > 65535 bytes, multi-byte UTF-8 names, 1821 doodad and 1025 WMO placements (> 65535 bytes), 3/17/255/257 terrain chunks, 2 and 3 layers, 3-byte alpha maps, 40 sound emitters, WMO-only and 150 references, ocean/slime/flat legacy liquid, all 8 subsets of MCMT/MCDD/MCBB, chunk flags impassable+do-not-fix-alpha and high-res holes with a hole bitmap, water on all 256 chunks / attributes-only entry / 1-entry list, 3-layer and 64-bit-bitmap water, MTXF/MTXP counts differing from the texture count, 1-batch and > 65535-byte blend meshes): ext = all specs with <= 2 deviations from the three baselines with at least one extended value; chunks = full product of {} per-chunk sites ({} combinations, 256 consecutive combinations on the 256 terrain chunks of one tile, {} tiles) x 6 versions, top level at the full baseline, 2 rounds; top_names = full product textures x models x doodads x wmos x wmo_placements x flight_bounds x water(none, chunk 0) x 6 versions; top_chunks = full product mcnk(one, auto256) x textures(1, 3) x flight_bounds x mtxf(4) x mamp x mtxp(3) x blend_mesh(4) x water set(8) x water format(10) x 6 versions, both without the combinations documented as refused, 3 rounds on three rebuild paths (the third alternates from_root_adt and from_parsed); convert = the three baselines with <= 1 deviation over the whole alphabet x 6 versions: BuiltAdt::from_root_adt(root, Some(v)) for all 6 v and back to the built version (every file walked; content compared for the sections that exist in the oldest version of the chain; all-zero MFBO / MTXF added by a conversion not judged), then AdtBuilder::from_parsed(root) + add_texture/add_model/add_wmo/add_mcnk_chunk -> build -> to_bytes -> walk -> parse == parsed content plus the additions", SITES.iter().map(|s| s.core).sum::<usize>(), SITES.iter().map(|s| s.vals.len()).sum::<usize>(), CHUNK_PRODUCT.len(), chunk_product_len(), chunk_product_len().div_ceil(256)) }
     );
     c.assume("content equality is judged on a canonical byte rendering of every section (floats by bit pattern); derived fields are excluded: MCNK header offsets/sizes/n_layers/n_snd_emitters, MCNR trailing padding, MH2O header/instance offsets and layer_count, MHDR/MCIN/MMID/MWID (checked by the walker instead); an empty section equals an absent one");
     c.assume("detected version is not content: version detection from chunk presence may legitimately report an older version when no newer chunk is present (counted, not judged); content lost because of it is judged");
     c.assume("texture flags left unspecified by the builder input may come back as one zero per texture (documented default); MCIN sizes may count the MCNK data with or without the 8 header bytes, MCNK sub-offsets may be relative to chunk start or data start, as long as one file uses one convention (docs and code disagree; the property does not fix it)");
     c.assume("builder inputs are self-consistent where the format stores a fact twice (MCNK flags vs. MCCV/MCSH/liquid type, n_doodad_refs/n_map_obj_refs vs. reference lists, MH2O vertex grid vs. instance rectangle, exists bitmap bits within width*height); offsets/sizes/counts that the writer must derive are deliberately given stale values");
     c.assume("walker: /verif/harness/props/c14/src/walker.rs, written from /repo/docs/src/formats/world-data/adt.md and the public ADT/v18 layout, shares no code with wow-adt");
+    c.assume("raw sub-chunk sizes: MCVT/MCCV/MCLV 4 bytes per vertex, MCNR 3 bytes per normal plus 13, MCLY 16 bytes per layer, MCRF/MCRD/MCRW 4 bytes per reference, MCSE 28 bytes per emitter, MCSH/MCAL the bytes given (record sizes of /repo/docs/src/formats/world-data/adt.md and the public ADT/v18 layout)");
+    c.assume("explicit version conversion: sections that do not exist in the target version may be dropped, an all-zero MFBO and one zero MTXF flag per texture may be added (documented on BuiltAdt::from_root_adt); the MCNK flag word is not compared below MoP; file growth is not judged for conversions");
     c.run_space("main", "");
+    if tier == Tier::Thorough {
+        for sp in ["ext", "chunks", "top_names", "top_chunks", "convert"] {
+            c.run_space(sp, "");
+        }
+    }
     let mut axes = serde_json::Map::new();
     for s in SITES.iter() {
         axes.insert(s.name.into(), json!(s.vals.len()));
@@ -571,5 +1006,29 @@ fn main() {
     axes.insert("rebuild_paths".into(), json!(2));
     c.extra_cov.insert("axes".into(), Value::Object(axes));
     c.extra_cov.insert("max_deviations".into(), json!({"minimal": dmin, "full": dfull}));
+    if tier == Tier::Thorough {
+        let mut core = serde_json::Map::new();
+        for s in SITES.iter() {
+            core.insert(s.name.into(), json!(s.core));
+        }
+        c.extra_cov.insert("axes_core_values_of_space_main".into(), Value::Object(core));
+        let prod = |axes: &[(usize, &[&str])]| -> Value {
+            let mut m = serde_json::Map::new();
+            for (site, vals) in axes {
+                m.insert(SITES[*site].name.into(), json!(vals.len()));
+            }
+            Value::Object(m)
+        };
+        c.extra_cov.insert(
+            "thorough_spaces".into(),
+            json!({
+                "ext": {"max_deviations": 2, "baselines": 3, "versions": 6},
+                "chunks": {"product_axes": prod(&CHUNK_PRODUCT), "combinations": chunk_product_len(), "tiles_per_version": chunk_product_len().div_ceil(256), "versions": 6, "rounds": 2, "rebuild_paths": 2},
+                "top_names": {"product_axes": prod(&TOP_NAMES), "versions": 6, "rounds": ROUNDS, "rebuild_paths": 3},
+                "top_chunks": {"product_axes": prod(&TOP_CHUNKS), "versions": 6, "rounds": ROUNDS, "rebuild_paths": 3},
+                "convert": {"baselines": 3, "max_deviations": 1, "versions": 6, "target_versions": 6, "chain": "A->B, A->B->A, load-modify-save"},
+            }),
+        );
+    }
     c.finish();
 }
